@@ -187,8 +187,12 @@ fn items_for(prop: Prop, tier: Tier, f: &mut dyn FnMut(Item)) {
                             for (ai, d) in a.iter_mut().enumerate() {
                                 // `<>` / default selections over a child that is not a plain value
                                 // would test the harness's own conversion helpers: name them instead
-                                if g.alts[m][ai].contains(&Sym::N(n as u8)) && !matches!(d.style, Style::Named | Style::Mut | Style::Anon) {
-                                    d.style = Style::Named;
+                                // a child that is not a plain value cannot be the default value of a
+                                // `V`-typed alternative
+                                // (and for a tuple-valued child: always the named bindings with `<>`, so
+                                // that a tuple pattern next to plain names meets the `<>` expansion)
+                                if g.alts[m][ai].contains(&Sym::N(n as u8)) && (k == NtKind::Tuple || matches!(d.style, Style::DefaultSel(_) | Style::DefaultOnly)) {
+                                    d.style = Style::NamedAngle;
                                 }
                             }
                         }
@@ -509,7 +513,7 @@ fn process_chunk(ctx: &mut Ctx, prop: Prop, dir: &Path, items: &[Item], n: usize
             }
             Prop::C06 => {
                 if let Some(e) = &exp {
-                    if e.has_inlined_empty {
+                    if e.has_inlined_empty && std::env::var("VERIF_C06_UNSKIP").is_err() {
                         // spans of inlined nonterminals that derive nothing are unspecified
                         ctx.count("skipped_inlined_empty");
                         continue;
